@@ -51,12 +51,12 @@ type Pairlis struct {
 // Call the function with the arguments provided.
 func (f *Pairlis) Call(s *slip.Scope, args slip.List, depth int) slip.Object {
 	slip.CheckArgCount(s, depth, f, args, 2, 3)
-	keys, ok := args[0].(slip.List)
+	keys, ok := listArg(args[0])
 	if !ok {
 		slip.TypePanic(s, depth, "keys", args[0], "list")
 	}
 	var values slip.List
-	if values, ok = args[1].(slip.List); !ok {
+	if values, ok = listArg(args[1]); !ok {
 		slip.TypePanic(s, depth, "values", args[1], "list")
 	}
 	if len(keys) != len(values) {
@@ -68,7 +68,7 @@ func (f *Pairlis) Call(s *slip.Scope, args slip.List, depth int) slip.Object {
 	}
 	if 2 < len(args) {
 		var tail slip.List
-		if tail, ok = args[2].(slip.List); !ok {
+		if tail, ok = listArg(args[2]); !ok {
 			slip.TypePanic(s, depth, "alist", args[2], "list")
 		}
 		alist = append(alist, tail...)
